@@ -20,15 +20,13 @@ from common import cstr, clist, cfloat, copt, cpair, cz, cnat
 
 THEOREMS = ['C12_expand_shorthand', 'C12_interpolates_evenly_spaced',
             'C12_importance_cards_max', 'C12_importance_cards_uneven_refused',
-            'C12_keywords_importance', 'C12_option_tokens_words',
-            'C12_importance_of_cell',
+            'C12_keywords_importance', 'C12_particle_dictionary',
+            'C12_option_tokens_words', 'C12_importance_of_cell',
             'C12_importance_missing_refused', 'C12_skipped_iff_zero',
             'C12_converted_iff_nonzero', 'C12_data_card_max_zero',
-            'C12_cell_card_max_zero', 'C12_plain_card_max_zero',
-            'C12_chain_max_zero',
-            'C12_conv_keys_not_skipped', 'C12_written_volumes',
-            'C12_like_but_imp_refuted',
-            'C12_nonu_refuted']
+            'C12_chain_zero_iff', 'C12_cell_card_zero_iff',
+            'C12_plain_card_zero_iff', 'C12_conv_keys_not_skipped',
+            'C12_written_volumes']
 TRUSTED = [
     'hand-written model coq/C12/Model.v + Text.v (modelled, tied by '
     'execution only)',
@@ -47,7 +45,7 @@ TRUSTED = [
 ]
 ASSUMPTIONS = [
     'importances are non-negative (C12_data_card_max_zero / '
-    'C12_cell_card_max_zero: max = 0 iff all = 0)',
+    'C12_chain_zero_iff: max = 0 iff all = 0)',
     'at least one cell of the deck is converted: a deck whose cells all have '
     'zero importance (not a runnable MCNP problem) stops with ValueError from '
     'max() of an empty sequence, no file is written (checked: all_zero_deck)',
@@ -57,10 +55,6 @@ ASSUMPTIONS = [
     'no LIKE cycle (the code does not terminate); no jump (nJ) entries in IMP '
     'cards for the deck-level theorems (the code keeps None, converts the '
     'cell, and max(None, x) is a TypeError with two cards)',
-    'cell keywords other than imp/fill/lat/trcl/u/rho/mat do not contain the '
-    'letter u (finding keyword_with_u_read_as_universe otherwise); a LIKE '
-    'card does not lower an importance given on the card it is LIKE (finding '
-    'like_but_imp_max otherwise)',
     'IMP data cards have pairwise distinct names (C12_importance_cards_max); '
     'a repeated name replaces the earlier card (modelled and tied)',
 ]
@@ -338,7 +332,7 @@ def apply_fault(deck, rng):
     fault = rng.choice(['short', 'long', 'uneven', 'jump', 'like_missing',
                         'no_value', 'bad_value', 'trcl_unknown', 'lat_nofill',
                         'fill_lat_int', 'ranges_nolat', 'none', 'dup_card',
-                        'dup_cell'])
+                        'dup_cell', 'dup_imp', 'dup_imp'])
     cells = deck['cells']
     cards = deck['imp_cards']
     deck['fault'] = fault
@@ -381,6 +375,13 @@ def apply_fault(deck, rng):
         name, toks = cards[0]
         cards.append((name.swapcase(), list(reversed(toks))
                       if rng.random() < 0.5 else toks))
+    elif fault == 'dup_imp':
+        # the same particle twice on one card (the last entry counts), odd
+        # designators
+        cells[rng.randrange(len(cells))]['opts'] += ' ' + rng.choice(
+            ['imp:n=0 imp:n=2', 'imp:n=2 imp:n=0', 'imp:n,p=1 imp:p=0 imp:n 0',
+             'imp:p=3 imp:n,p=0', 'imp=0', 'imp:=1 imp:n=0', 'imp:n,=0',
+             'imp::n=1 imp:n=0', 'IMP:N,P,E=0 imp:e 1'])
     elif fault == 'dup_cell':
         first = cells[0]
         if first['like'] is None:
@@ -414,47 +415,10 @@ def chain_of(deck, cell):
     return out
 
 
-def ukw_cell(deck, cell):
-    '''The options the cell ends up with (its own and those of the cards it
-    is LIKE) hold a keyword that merely contains the letter u (NONU, UNC:N)
-    and no U keyword.'''
-    toks = []
-    for link in reversed(chain_of(deck, cell)):
-        toks.extend(g.py_option_tokens(link['opts']))
-    ukw = [t for t in toks if 'u' in t and t != 'u'
-           and not t.startswith('imp') and 'fill' not in t
-           and 'lat' not in t and 'trcl' not in t
-           and t[0] not in '0123456789.+-']
-    return bool(ukw) and 'u' not in toks
-
-
-def like_lowered(deck, cell):
-    '''Some LIKE card of the cell's chain (the cell itself included) gives
-    IMP:x = 0 for a particle to which a card further down the chain gives a
-    positive importance.'''
-    seen = {}
-    for link in reversed(chain_of(deck, cell)):      # base first
-        own = {}
-        for blk in link['blocks']:
-            if blk['kind'] == 'imp':
-                for part in blk['parts']:
-                    own[part] = blk['value']
-        if link.get('like') is not None and any(
-                v == 0 and seen.get(part, 0) > 0 for part, v in own.items()):
-            return True
-        seen.update(own)
-    return False
-
-
 def class_of(deck, cell, emitted, listed):
-    '''Narrow known-finding classes.'''
-    if cell.get('like') is not None and cell['zero'] and not listed \
-            and (emitted or ukw_cell(deck, cell)) and like_lowered(deck, cell):
-        # (not emitted when a NONU keyword also moved it to a universe)
-        return 'like_but_imp_max'
-    if not emitted and not listed and not cell['zero'] \
-            and ukw_cell(deck, cell):
-        return 'keyword_with_u_read_as_universe'
+    '''Narrow known-finding classes: none is open (like_but_imp_max and
+    keyword_with_u_read_as_universe were repaired by 0b05eba and f85f992; their
+    witnesses are must-pass corpus decks now).'''
     return None
 
 
@@ -464,11 +428,6 @@ def oracle_conversion(deck, text):
     fails = []
     if not conv.ok or conv.text is None:
         cls = None
-        live = [c for c in deck['cells'] if not c['zero']]
-        if conv.exc == 'ValueError' and 'max()' in conv.msg and live \
-                and all(ukw_cell(deck, c) for c in live):
-            # every cell of non-zero importance was moved to a universe
-            cls = 'keyword_with_u_read_as_universe'
         return conv, [(None, f'deck rejected: {conv.exc}: {conv.msg[:150]}',
                        cls)]
     t4 = impl.T4File(conv.text)
@@ -490,25 +449,6 @@ def oracle_conversion(deck, text):
     if len(set(note)) != len(note):
         fails.append((None, f'NOTE lists a cell twice: {note}', None))
     return conv, fails
-
-
-WITNESS_LIKE = '''like but imp
-1 0 -1 imp:n=1
-2 like 1 but imp:n=0
-3 0 1 imp:n=1
-
-1 so 1
-
-nps 1
-'''
-WITNESS_NONU = '''nonu read as a universe
-1 0 -1 imp:n=1 nonu=1
-2 0 1 imp:n=0
-
-1 so 1
-
-nps 1
-'''
 
 
 # ---------------------------------------------------------------------------
@@ -574,6 +514,19 @@ CORPUS = [
      [], [1]),
     ('like-by-rank', [(1, ''), (2, ''), (3, ('like', 1), ''), (4, ('like', 2), '')],
      ['imp:n 1 0 0 1'], [2, 3]),
+    # the two repaired defects (0b05eba, f85f992): must pass
+    ('like-but-imp-zero', [(1, 'imp:n=1'), (2, ('like', 1), 'imp:n=0'),
+                           (3, 'imp:n=1')], [], [2]),
+    ('like-but-imp-zero-one-particle-of-two',
+     [(1, 'imp:n,p=1'), (2, ('like', 1), 'imp:n=0'),
+      (3, ('like', 1), 'imp:n=0 imp:p=0'), (4, ('like', 1), 'imp:p,n=0')],
+     [], [3, 4]),
+    ('like-chain-lowered-then-inherited',
+     [(1, 'imp:n=2'), (2, ('like', 1), 'imp:n=0'), (3, ('like', 2), 'vol=1'),
+      (4, ('like', 3), 'imp:n=4')], [], [2, 3]),
+    ('nonu-is-not-u', [(1, 'imp:n=1 nonu=1'), (2, 'imp:n=0'),
+                       (3, 'unc:n=1 imp:n=1'), (4, 'imp:n=0 nonu=2')],
+     [], [2, 4]),
     ('keywords-after-imp', [(1, 'imp:n=0 vol=3 tmp=2.5-8'), (2, 'vol=1 imp:n=1 pwt=0')],
      [], [1]),
 ]
@@ -640,27 +593,6 @@ def all_zero_deck(res):
         res.count('all-zero:stopped:' + str(conv.exc))
 
 
-def witnesses(res):
-    conv = impl.convert(WITNESS_LIKE)
-    if conv.ok and conv.text:
-        t4 = impl.T4File(conv.text)
-        if 2 in t4.volumes or 2 not in g.note_list(conv.stdout):
-            res.violation('impl-violation',
-                          'LIKE 1 BUT IMP:N=0 (base IMP:N=1): cell 2 is '
-                          'still emitted', {'input': {'deck': WITNESS_LIKE}},
-                          cls='like_but_imp_max', found_input=True)
-    conv = impl.convert(WITNESS_NONU)
-    if conv.ok and conv.text:
-        t4 = impl.T4File(conv.text)
-        if 1 not in t4.volumes:
-            res.violation('impl-violation',
-                          'cell 1 (IMP:N=1 NONU=1) is neither converted nor '
-                          'listed: NONU is read as U',
-                          {'input': {'deck': WITNESS_NONU}},
-                          cls='keyword_with_u_read_as_universe',
-                          found_input=True)
-
-
 # ---------------------------------------------------------------------------
 # run
 # ---------------------------------------------------------------------------
@@ -689,9 +621,6 @@ def parse_ties(res, rng, n_valid, n_bad):
                 skipped = cell['id'] in result[2]
                 if skipped != cell['zero']:
                     cls = None
-                    if cell['like'] is not None and cell['zero'] \
-                            and not skipped and like_lowered(deck, cell):
-                        cls = 'like_but_imp_max'
                     res.violation(
                         'impl-violation',
                         f'cell {cell["id"]}: importances {cell["values"]} '
@@ -805,7 +734,6 @@ def run(res, tier, seed, proofs_ok):
                 'conversions of level-0 decks incl. keywords containing "u"; '
                 'non-trivial = >= 2 tokens / cells, for (c) a deck with both '
                 'zero and non-zero cells')
-    witnesses(res)
     corpus(res)
     all_zero_deck(res)
     expand_ties(res, rng, 300 if quick else 4000, 200 if quick else 3000)
